@@ -219,6 +219,7 @@ def run(ctx):
             a = guard.is_allowed(qobj)
             after = _state(st, skind, qobj)
             f0 = fresh_answer(case, qa, None)
+            backend_specific = False
             hist.append((repr(qa), a))
             out.evaluations += 1
             desc = {'checker': k, 'cache': cap, 'storage': skind, 'policies': [repr(p) for p in case['policies']],
@@ -230,6 +231,7 @@ def run(ctx):
                 try:
                     f0 = fresh_answer(case, qa, None, skind)
                     out.count('judged-on-fresh-storage-of-the-same-kind')
+                    backend_specific = a is f0       # (the stateless model below is a model of the in-memory answer)
                 except Exception:
                     pass
             if a is not f0:
@@ -245,8 +247,9 @@ def run(ctx):
                 out.failures.append(f)
                 break
             try:
-                lines.append(polcase.decide_line(case, objs, qobj))
-                meta.append((desc, a))
+                if not backend_specific:
+                    lines.append(polcase.decide_line(case, objs, qobj))
+                    meta.append((desc, a))
             except proto.ProtoError:
                 pass
         out.traces += 1
